@@ -15,7 +15,7 @@ from pv.runner import Res
 
 ID = "C10"
 RULE = ("trajectories produced from generated (domain, problem, plan >= 1 step) triples (fluents with repeated "
-        "arguments, 0-ary atoms, negative and fractional values, a by-standing fluent of 1-15 significant digits and magnitude 1e-14..1e21, empty states), parsed back with and without the "
+        "arguments, 0-ary atoms, negative and fractional values (also between -0.1 and 0), a by-standing fluent of 1-15 significant digits and magnitude 1e-14..1e21, empty states), parsed back with and without the "
         "problem's object table; joint-action trajectories (1-2 steps, 1-4 agents, nop entries, parameterless members) "
         "through MultiAgentTrajectoryExporter, parsed back with executing_agents (scenario shared with C16).  "
         "Non-trivial = the trajectory has >= 2 steps and some state holds a fluent with a repeated argument, a 0-ary "
@@ -119,7 +119,19 @@ def check_case(case):
     if used <= first_objs:
         modes.append(("deduced-objects", False))
     for tag, with_problem in modes:
-        okt, obs = lib_call(lambda: TrajectoryParser(domain, problem if with_problem else None).parse_trajectory(path))
+        def parse_back():
+            parser = TrajectoryParser(domain, problem if with_problem else None)
+            if case.get("reuse_parser") and len(triplets) >= 2:
+                # the same parser object and the same path served another trajectory (the first step only) before
+                exporter2 = TrajectoryExporter(domain, allow_invalid_actions=bool(case.get("allow")))
+                exporter2.export_to_file(triplets[:1], path)
+                try:
+                    parser.parse_trajectory(path)
+                except Exception:  # noqa: the decoy's outcome is not under test
+                    pass
+                exporter2.export_to_file(triplets, path)
+            return parser.parse_trajectory(path)
+        okt, obs = lib_call(parse_back)
         if not okt:
             res.bad(f"C10/{tag}/parse-exception:{obs.key}", {**info, "error": repr(obs), "text": open(path).read()[:1200]})
             continue
@@ -214,6 +226,7 @@ def chunk_cases(tier, chunk):
 def gen(ch, tier):
     case = PC.gen_plan_case(ch, tier, max_len=6 if tier == "quick" else 15, p_applicable=0.85)
     case["allow"] = ch.flag(0.2)
+    case["reuse_parser"] = ch.flag(0.4)
     if ch.flag(0.5) and not any(f[0] == "fz" for f in case["dom"]["functions"]):
         # a fluent no action reads or writes, holding a value of 1-15 significant digits and any magnitude
         # (1e-14 .. 1e21): it travels through every state text of the trajectory
